@@ -28,7 +28,8 @@ SPEC = {
     'conf_quick': [('K9', 3)],
     'conf_thorough': [('K9', 3), ('K11', 3)],
 }
-SPEC['thorough'] = X.thorough_spec(SPEC['quick'], [('K14', 'lend'), ('K1', 'lend')])
+# K21 has an initial balance off the precision grid: outside C08's precondition
+SPEC['thorough'] = X.thorough_spec(SPEC['quick'], [('K14', 'lend'), ('K1', 'lend')], exclude=('K21',))
 BOUNDS = {t: dict(spec=SPEC[t]) for t in ("quick", "thorough")}
 EXPLANATION = ("explicit-state BFS over operation histories with state de-duplication; every transition executes the "
                "real exchange; traces_validated_against_impl = histories executed through BOTH drivers (sync and "
